@@ -451,9 +451,12 @@ func (e *executor) exec(op hcOp) *stepResult {
 	e.failedPendingBefore = e.failedPending
 	e.valuesBefore = e.cacheValues()
 	switch op.Kind {
-	case "reconfig", "reconfig-same", "coldstartdone", "phase":
-		// not delivered through NRI (configuration updates and policy events
-		// run outside requests; the lanes of a phase are not sequential)
+	case "reconfig", "reconfig-same":
+		// a configuration update is delivered by the agent, outside NRI requests
+		e.h.stub.enterConfigUpdate("updateConfig")
+		defer e.h.stub.enterConfigUpdate("")
+	case "coldstartdone", "phase":
+		// policy events run outside requests; the lanes of a phase are not sequential
 	default:
 		e.h.stub.enterRequest(op.Kind)
 		defer e.h.stub.enterRequest("")
